@@ -51,7 +51,8 @@ def exec_session(job):
     receive timeout), then end of stream (a truncation if the sizes do not cover the stream)."""
     from . import sim, vsock
     import struct
-    scj, sizes = job
+    scj, sizes = job[:2]
+    delay = job[2] if len(job) > 2 else None          # the server's response delay option (seconds)
     sc = scj["sc"]
     acc = [0]
 
@@ -70,7 +71,7 @@ def exec_session(job):
     for fb in scj["fb"]:
         stream += bytearray(fb)
     sim.reset_random(1)
-    ev = vsock.session(chunks_of(stream, sizes), addr=("10.0.0.1", 4000))
+    ev = vsock.session(chunks_of(stream, sizes), addr=("10.0.0.1", 4000), delay=delay)
     final = dev.get_mem()
     nacc = acc[0]
     # the listener / other sessions keep working: a new connection registers and lists services
